@@ -47,6 +47,9 @@
 (*   minimum, maximum : Int;  exclMin, exclMax : BOOLEAN (draft-4 form);   *)
 (*   xMin, xMax : Int (numeric exclusiveMinimum/Maximum);  multipleOf : Int>0 *)
 (*   minLength, maxLength : Nat;  pattern : pat;  format : STRING          *)
+(*     (uuid, date, date-time, ipv4, byte are decided; for the other       *)
+(*      formats common checkers implement only the empty text is decided   *)
+(*      (member / not a member), the rest is "U"; unknown format = "T")    *)
 (*   items : schema;  minItems, maxItems : Nat;  uniqueItems : BOOLEAN     *)
 (*   props : [k : Seq(Seq(Nat)), v : Seq(schema)];  required : Seq(Seq(Nat))*)
 (*   addProps : schema;  minProperties, maxProperties : Nat                *)
@@ -203,12 +206,17 @@ FmtByte(s) ==
   IN IF (\A i \in 1..(n - pad) : IsB64(s[i])) THEN (IF n % 4 = 0 THEN "T" ELSE IF pad = 0 THEN "U" ELSE "F")
      ELSE IF (\A i \in 1..(n - pad) : (IsB64(s[i]) \/ s[i] \in {45, 95, 10, 13, 32})) THEN "U"   \* url-safe alphabet, MIME line breaks
      ELSE "F"
+EmptyOkFormats == {"uri-reference", "iri-reference", "uri-template", "regex", "json-pointer"}
+NonEmptyFormats == {"duration", "email", "hostname", "idn-email", "idn-hostname", "ipv6", "iri", "time", "uri", "relative-json-pointer"}
 FormatOk(fmt, txt) ==
   CASE fmt = "date"      -> FmtDate(Str(txt))
     [] fmt = "date-time" -> FmtDateTime(Str(txt))
     [] fmt = "uuid"      -> FmtUuid(Str(txt))
     [] fmt = "ipv4"      -> FmtIpv4(Str(txt))
     [] fmt = "byte"      -> FmtByte(Str(txt))
+    [] fmt \in EmptyOkFormats  -> IF txt = <<>> THEN "T" ELSE "U"     \* the empty text is a member (RFC 3986 relative reference, RFC 6570,
+                                                                       \* RFC 6901 whole-document pointer, the empty regular expression)
+    [] fmt \in NonEmptyFormats -> IF txt = <<>> THEN "F" ELSE "U"     \* their grammars have no empty member; anything else is not decided here
     [] OTHER             -> "T"                     \* every other format is an annotation
 
 (* ---------------- validity ---------------- *)
